@@ -107,7 +107,14 @@ def okv(model):
     sites.append((f, lambda e, f=f: isinstance(e, ast.Name) and e.id == f.params[1]))
     for q in ('utils.ml_append_placeholder', 'utils.get_txt_pos_ml'):
         g = model.func(q)
-        sites.append((g, lambda e: isinstance(e, ast.Attribute) and e.attr == 'pos'))
+        def is_pos(e, depth=2):
+            if isinstance(e, ast.Attribute) and e.attr == 'pos':
+                return True
+            if isinstance(e, ast.Name) and depth:
+                vals = T.resolve_local(model, e)
+                return bool(vals) and all(v is not e and is_pos(v, depth - 1) for v in vals)
+            return False
+        sites.append((g, is_pos))
     h = model.func('shell.proofreader.run_proofreader_options')
     accmap = None
     for n in iter_scope(h.node):
@@ -437,8 +444,11 @@ def at2(model):
                    'extracted from arguments are recorded by append only', floor=2)
     f = model.func('parser.Parser.parse_keyvals_list')
     hit = False
+    helpers = {d.name for d in ast.walk(f.node) if isinstance(d, ast.FunctionDef) and d is not f.node
+               and any(isinstance(c, ast.Call) and T.call_name(c) == 'arg_buffer' for c in ast.walk(d))}
     for n in iter_scope(f.node):
-        if isinstance(n, ast.If) and any(isinstance(c, ast.Call) and T.call_name(c) == 'arg_buffer'
+        if isinstance(n, ast.If) and any(isinstance(c, ast.Call) and (T.call_name(c) == 'arg_buffer'
+                                                                      or T.call_name(c) in helpers)
                                          for s in n.body for c in ast.walk(s)):
             hit = True
             tokv = None
